@@ -149,6 +149,8 @@ def strategy(tier: str):
                         min_size=1, max_size=14 if tier == 'quick' else 28).map(lambda cs: [o for c in cs for o in c]),
         'spawn': st.one_of(st.none(), st.none(), st.fixed_dictionaries({
             'after': st.integers(0, 4), 'types': st.lists(st.integers(0, 2), min_size=1, max_size=2, unique=True).map(sorted)})),
+        # the listener has no update_service method (optional; the library only warns)
+        'no_update': st.sampled_from([False, False, False, False, True]),
     })
 
 
@@ -237,10 +239,21 @@ class Exec:
                             run.stats['browser_started_inside_callback'] += 1
                 return e
 
+        class ListenerWithoutUpdate(Listener):
+            # update_service is optional (the library warns that it will become mandatory one day)
+            def __getattribute__(self_, name: str) -> Any:
+                if name == 'update_service':
+                    raise AttributeError(name)
+                return super().__getattribute__(name)
+
         def new_browser(tis: List[int]) -> None:
             types = [TYPES[i] for i in tis]
-            lst = Listener(w, on_add=self.on_add)
-            br = AsyncServiceBrowser(zc, types if len(types) > 1 else types[0], listener=lst)
+            lst = (ListenerWithoutUpdate if self.case.get('no_update') else Listener)(w, on_add=self.on_add)
+            import warnings
+
+            with warnings.catch_warnings():
+                warnings.simplefilter('ignore', FutureWarning)
+                br = AsyncServiceBrowser(zc, types if len(types) > 1 else types[0], listener=lst)
             self.browsers.append((br, lst, types))
 
         for tis in self.case['browsers']:
@@ -347,6 +360,8 @@ def check(case: Dict[str, Any]) -> Dict[str, Any]:
                 readded += 1
     s['removed_then_readded'] = readded
     classes = [k for k, v in s.items() if v]
+    if case.get('no_update'):
+        classes.append('listener-without-update_service')
     if len(case['browsers']) > 1 or s['late_browsers']:
         classes.append('multi-browser')
     if any(len(b) > 1 for b in case['browsers']):
